@@ -5,14 +5,26 @@ Case kinds (all JSON-able):
         a traceback text in the interpreter's standard layout, built HERE from the structured data
   {'k':'r', 'text': ...}
         an arbitrary (mutated / malformed / SyntaxError-form) text: correspondence + totality only
-  {'k':'l', 'mods':[...], 'links':[...], 'exc':{...}, 'limit': None|int}
-        a generated program (nested calls through fake modules, lambdas, exec, recursion ...) that raises;
-        the live exception goes through ExceptionInfo / TracebackInfo and through the traceback module
+  {'k':'l', 'mods':[...], 'links':[...], 'exc':{...}, 'limit': None|int, 'order': 'b'|'s',
+   optional: 'tblimit': int (sys.tracebacklimit), 'skip': int (hand over tb.tb_next), 'seq': 'dict'|'build'}
+        a generated program (nested calls through generated modules, lambdas, exec, recursion, functions that
+        re-raise the exception they caught ...) that raises; the live exception goes through ExceptionInfo /
+        TracebackInfo / print_exception and through the traceback module ('order': who is asked first)
+        mods[i] = {'file', 'name', 'reg': 'cache' (hand-registered linecache entry, optional 'ws') | 'loader' |
+                   'loader_none' | 'loader_err' | 'none' | 'disk' (a real file in a scratch directory with a history:
+                   'v1' earlier version, 'prime' who cached it, 'mt' mtime kept?, 'junk', 'gone', 'ldr'), optional 'gfile'}
+'t' and 'r' cases may carry 'b': 1 - the text is handed to from_string as UTF-8 bytes.
 """
+import io
 import itertools
 import linecache
+import os
 import re
+import shutil
+import struct
 import sys
+import tempfile
+import tokenize
 import traceback
 
 from bv.common import Property, Failure, time_limit, exc_name, CaseTimeout
@@ -123,13 +135,26 @@ class C16(Property):
     THOROUGH_BUDGET_S = 600
     RULE = ('a case is (t) a traceback text rendered by the harness from structured data: 0..n frames, each with '
             'file / line number / function / optional source line / optional position-marker line, a type name and '
-            'an empty, one-line or multi-line message, with or without the final newline; (r) a mutated or malformed '
-            'text; (l) a generated program whose nested calls (plain, lambda, method, generator, exec, eval, '
-            'recursion, no-source code) raise an exception that is formatted by boltons and by the traceback '
-            'module. Exhaustive: all texts with <= 2 frames over the option alphabet; seeded random texts with '
-            'non-ASCII paths, quotes, frame-like fragments; adversarial mutations. Non-trivial = (t) at least one '
-            'frame and the text is in the statement\'s domain, (r) the parser took the frame loop, (l) the chain '
-            'has >= 2 entries; distinct = distinct cases.')
+            'an empty, one-line or multi-line message, with or without the final newline, handed over as str or as '
+            'UTF-8 bytes; (r) a mutated or malformed text; (l) a generated program whose nested calls (plain, lambda, '
+            'method, generator, coroutine, exec, eval, recursion, decorator, property, no-source code, and functions '
+            'that catch the exception and hand the same object on: raise e / bare raise / with_traceback / a trimmed '
+            'or rebuilt traceback / after the handler / nested handlers / a retry loop / generator.throw / finally) '
+            'raise an exception that is formatted by boltons (ExceptionInfo from_exc_info and from_current, '
+            'TracebackInfo with and without limit, ContextualExceptionInfo, print_exception with and without limit; '
+            'objects built, formatted and to_dict()ed in three different orders) and by the traceback module, boltons '
+            'first or second. The modules of the program have their source in a hand-registered linecache entry '
+            '(optionally with exotic whitespace around every line), behind a loader (also one that has no source or '
+            'raises ImportError), nowhere, or in a real file in a scratch directory with a history replayed before the '
+            'failing run: an earlier version of the file (same size / other size / shifted lines / too short / '
+            'identical) was read into linecache by linecache.getlines, by an earlier boltons report or by an earlier '
+            'traceback-module report, the file was rewritten with the same or another mtime, made undecodable or '
+            'removed; module globals may carry a __file__ that is not the code\'s file name; sys.tracebacklimit may be '
+            'set (>= 1); the caller may hand over tb.tb_next. First in the stream: an enumerated family of ~400 small '
+            'live cases over all of these dimensions; then all texts with <= 2 frames over the option alphabet; then '
+            'seeded random texts (non-ASCII paths, quotes, frame-like fragments), adversarial mutations and random '
+            'live cases. Non-trivial = (t) at least one frame and the text is in the statement\'s domain, (r) the '
+            'parser took the frame loop, (l) the chain has >= 2 entries; distinct = distinct cases.')
     ASSUMPTIONS = [
         'a traceback text is compared without the interpreter\'s final newline (to_string() never emits one); '
         'ExceptionInfo.get_formatted() is compared with the interpreter\'s output minus that final newline',
@@ -139,6 +164,14 @@ class C16(Property):
         'text is a sequence of Unicode scalar values; str() of the exception does not raise; no SyntaxError, '
         'chained causes, notes or exception groups (excluded by the statement)',
         'character classes of re \\d, str.isspace and str.splitlines are regenerated from the running interpreter',
+        'the reference for a live exception is the traceback module asked about the same traceback object in the same '
+        'state of the file system (before or after boltons); sys.tracebacklimit is unset or >= 1 and an explicit '
+        'limit of print_exception is None or >= 1 (with no entry to show the traceback module omits the header line, '
+        'boltons prints it); a traceback entry\'s line number is the one its instruction offset maps to (tb_lineno '
+        'of a hand-built TracebackType is not made to lie)',
+        'a complete linecache entry carrying the file\'s present size and mtime holds the file\'s present text; when '
+        'such an entry is cached, the file is gone and the module has a loader, the traceback module itself has no '
+        'stable answer (first call: no source line, later calls: the loader\'s) - such cases are generated but skipped',
     ]
     CORRESPONDENCE_NAME = ('C16.Driver (from_string/to_string scanners, tb_frame_str/get_formatted, traceback layout) '
                            'vs boltons.tbutils and the traceback module')
@@ -264,6 +297,7 @@ class C16(Property):
                         yield {'k': 't', 'frames': fr, 'type': ty, 'msg': msg, 'nl': 0}
                 if nf == 1:
                     yield {'k': 't', 'frames': fr, 'type': 'E', 'msg': 'm', 'nl': 1}
+                    yield {'k': 't', 'frames': fr, 'type': 'mod.\u00c9rr', 'msg': 'a: \u65e5\n\u00a0b', 'nl': 0, 'b': 1}
 
     ALPHA = ['a', 'b', 'Z', '_', '0', '7', ' ', ' ', '"', "'", ',', ':', ': ', '.', '/', '\\', '<', '>', '(', ')', '~', '^',
              '\u00e9', '\u65e5', '\u0663', '\U0001f600', '\u00a0', '\t', '", line 5, in g', 'File "', ', in ', 'line',
@@ -309,7 +343,10 @@ class C16(Property):
         elif r < 0.09 and frames:
             i = rng.randrange(len(frames))
             frames[i][0] += rng.choice(EXOTIC[2:])
-        return {'k': 't', 'frames': frames, 'type': ty, 'msg': msg, 'nl': 1 if rng.random() < 0.25 else 0}
+        case = {'k': 't', 'frames': frames, 'type': ty, 'msg': msg, 'nl': 1 if rng.random() < 0.25 else 0}
+        if rng.random() < 0.12:
+            case['b'] = 1
+        return case
 
     def mutate_text(self, text):
         """malformed / unusual texts for the correspondence (kind 'r')"""
@@ -379,6 +416,8 @@ class C16(Property):
         rng = self.rng
         for t in self.FIXED_RAW:
             yield {'k': 'r', 'text': t}
+        for c in self.live_family():
+            yield c
         for c in self.small_texts():
             yield c
         n_live = 4000 if self.thorough else 1000
@@ -390,7 +429,7 @@ class C16(Property):
             if r < 0.55:
                 yield c
             elif r < 0.9:
-                yield {'k': 'r', 'text': self.mutate_text(self.std_text(c))}
+                yield dict({'k': 'r', 'text': self.mutate_text(self.std_text(c))}, **({'b': 1} if c.get('b') else {}))
             else:
                 yield {'k': 'r', 'text': self.se_text() if rng.random() < 0.6 else self.mutate_text(self.se_text())}
             if i % live_every == 0:
@@ -411,7 +450,11 @@ class C16(Property):
     # ------------------------------------------------------------------ generation: live call chains
     LIVE_FILES = ['/bv/c16/m%d.py', '/bv c16/d\u00e9 %d/mod.py', 'rel%d.py', '<bv-gen-%d>', 'C:\\bv\\m%d.py',
                   '/bv/"q%d", line 5, in z.py']
-    LIVE_KINDS = ['call', 'call', 'lambda', 'method', 'gen', 'exec', 'eval', 'rec', 'multi', 'comp', 'deco', 'prop']
+    DISK_FILES = ['disk%d.py', 'd \u00e9 %d/mod.py', 'sub%d/a"b, line 5, in z.py']
+    LIVE_KINDS = ['call', 'call', 'lambda', 'method', 'gen', 'exec', 'eval', 'rec', 'multi', 'comp', 'deco', 'prop',
+                  'reraise', 'reraise', 'async']
+    # how an intermediate function hands an exception it caught on to its caller
+    REHOW = ['as_e', 'bare', 'wtb', 'trim', 'after', 'nested', 'loop', 'throw', 'faketb', 'finally']
     BUILTIN_EXC = ['ValueError', 'KeyError', 'TypeError', 'RuntimeError', 'OSError', 'ZeroDivisionError',
                    'SystemExit', 'KeyboardInterrupt', 'AssertionError', 'LookupError', 'UnicodeError']
     LIVE_ARGS = [[], [''], ['x'], ['a: b'], ['l1\nl2'], ['l1\n  File "q", line 3, in z\n    src\nE: y'], [3], ['a', 'b'],
@@ -422,38 +465,159 @@ class C16(Property):
                  'uiltins', 'built', 'tins', 'in', 'b', '_', '__', 's', 'mainbuiltins', '__main__builtins',
                  '__main__ builtins', 'x.builtins', 'builtins.x', 'Builtins', '__MAIN__', 'exceptions', '__builtin__',
                  'n__b', '__main__,builtins']
+    # what happened to a module kept on disk before the failing run: the earlier version of the file
+    # ('none' = there was none), who read it into linecache, whether the rewrite kept the mtime, whether the file
+    # is removed before the report, whether the module also has a loader with get_source
+    V1S = ['none', 'retag', 'grow', 'shift', 'short', 'same']
+    PRIMES = ['none', 'getlines', 'boltons', 'std']
+    # whitespace around the lines of a hand-registered linecache entry (what str.strip() removes)
+    WSS = [['', ''], ['\x0c', ' \x0c'], ['\u00a0 ', '\u2003'], ['\t \x0b', '\x1c'], ['\u3000', '\x1f\t'], ['', '\r']]
+
+    def random_disk(self, m, i):
+        rng = self.rng
+        m['reg'] = 'disk'
+        m['file'] = rng.choice(self.DISK_FILES) % i
+        m['v1'] = rng.choice(self.V1S)
+        m['prime'] = rng.choice(self.PRIMES)
+        m['mt'] = 'same' if rng.random() < 0.25 else 'differ'
+        m['gone'] = 1 if rng.random() < 0.15 else 0
+        m['ldr'] = 1 if rng.random() < 0.15 else 0
+        if rng.random() < 0.06:
+            m['junk'] = 1
+        return m
+
+    def random_link(self, nm, big=False):
+        rng = self.rng
+        kind = rng.choice(self.LIVE_KINDS)
+        ln = {'m': rng.randrange(nm), 'kind': kind}
+        if kind == 'rec':
+            ln['n'] = rng.choice([0, 1, 2, 3, 4, 5, 9]) if not big else rng.choice([2, 3, 4, 40])
+        if kind in ('call', 'lambda', 'exec'):
+            ln['pad'] = rng.choice(['    ', '  ', '\t', '        '])
+            ln['tail'] = rng.choice(['', '', '  # c', '   ', ' \t'])
+        if kind == 'reraise':
+            ln['how'] = rng.choice(self.REHOW)
+            if ln['how'] == 'loop':
+                ln['n'] = rng.choice([0, 1, 2, 3, 4, 6])
+        return ln
 
     def random_live_case(self, big=False):
         rng = self.rng
         nm = rng.randint(1, 3)
         mods = []
         for i in range(nm):
-            mods.append({'file': rng.choice(self.LIVE_FILES) % i,
-                         'name': rng.choice(['bvm%d' % i, 'pkg.bvm%d' % i, '__main__', 'builtins']) if rng.random() < 0.5
-                         else rng.choice(self.MOD_NAMES),
-                         'reg': rng.choice(['cache', 'cache', 'loader', 'none'])})
+            m = {'file': rng.choice(self.LIVE_FILES) % i,
+                 'name': rng.choice(['bvm%d' % i, 'pkg.bvm%d' % i, '__main__', 'builtins']) if rng.random() < 0.5
+                 else rng.choice(self.MOD_NAMES),
+                 'reg': rng.choice(['cache', 'cache', 'loader', 'none'])}
+            r = rng.random()
+            if r < 0.25:
+                self.random_disk(m, i)
+            elif r < 0.3:
+                m['reg'] = rng.choice(['loader_none', 'loader_err'])
+            elif r < 0.4 and m['reg'] == 'cache':
+                m['ws'] = rng.choice(self.WSS)
+            if rng.random() < 0.2:
+                m['gfile'] = rng.choice(['/elsewhere/mod%d.py' % i, 'mod.pyc', '<frozen x>', ''])
+            mods.append(m)
         depth = rng.randint(0, 6) if not big else rng.randint(10, 30)
-        links = []
-        for _ in range(depth):
-            kind = rng.choice(self.LIVE_KINDS)
-            ln = {'m': rng.randrange(nm), 'kind': kind}
-            if kind == 'rec':
-                ln['n'] = rng.choice([0, 1, 2, 3, 4, 5, 9]) if not big else rng.choice([2, 3, 4, 40])
-            if kind in ('call', 'lambda', 'exec'):
-                ln['pad'] = rng.choice(['    ', '  ', '\t', '        '])
-                ln['tail'] = rng.choice(['', '', '  # c', '   ', ' \t'])
-            links.append(ln)
+        links = [self.random_link(nm, big) for _ in range(depth)]
         kind = rng.choice(['builtin', 'builtin', 'top', 'top', 'nested', 'inner', 'strsub', 'modattr'])
         exc = {'kind': kind, 'm': rng.randrange(nm), 'args': rng.choice(self.LIVE_ARGS)}
         if kind == 'builtin':
             exc['name'] = rng.choice(self.BUILTIN_EXC)
         if kind == 'modattr':
-            exc['mod'] = rng.choice(['builtins', '__main__', 'exceptions', '__builtin__', 'x.y'] + self.MOD_NAMES)
+            exc['mod'] = rng.choice(['builtins', '__main__', 'exceptions', '__builtin__', 'x.y', None] + self.MOD_NAMES)
         limit = None
         if rng.random() < 0.3:
             limit = rng.choice([0, 1, 2, 3, 5, 50])
-        return {'k': 'l', 'mods': mods, 'links': links, 'exc': exc, 'limit': limit,
+        case = {'k': 'l', 'mods': mods, 'links': links, 'exc': exc, 'limit': limit,
                 'order': 'b' if rng.random() < 0.6 else 's'}
+        if rng.random() < 0.08:
+            case['tblimit'] = rng.choice([1, 2, 3, 5, 1000])
+        if rng.random() < 0.1:
+            case['skip'] = rng.choice([1, 1, 2, 3])
+        if rng.random() < 0.3:
+            case['seq'] = rng.choice(['dict', 'build'])
+        return case
+
+    def live_family(self):
+        """small adversarial live cases, enumerated (first in the stream): every way of handing a caught exception
+        on, at every position of a short chain; every history of a module file on disk; whitespace around cached
+        lines; sys.tracebacklimit; type names"""
+        def case(mods, links, exc=None, limit=None, order='b', **kw):
+            c = {'k': 'l', 'mods': mods, 'links': links,
+                 'exc': exc or {'kind': 'builtin', 'name': 'ValueError', 'm': 0, 'args': ['x']}, 'limit': limit,
+                 'order': order}
+            c.update(kw)
+            return c
+        pin = {'file': '/bv/c16/m0.py', 'name': 'bvm0', 'reg': 'cache'}
+        call = {'m': 0, 'kind': 'call'}
+        lam = {'m': 0, 'kind': 'lambda'}
+        for how in self.REHOW:
+            for n in ([0, 1, 2, 3, 4] if how == 'loop' else [None]):
+                rr = {'m': 0, 'kind': 'reraise', 'how': how}
+                if n is not None:
+                    rr['n'] = n
+                for links in ([rr], [call, rr], [rr, call], [call, rr, lam], [rr, rr], [rr, call, rr]):
+                    yield case([pin], links)
+                yield case([pin], [call, rr, call], limit=2)
+                yield case([pin], [rr, call], limit=1, order='s')
+                yield case([{'file': 'rel0.py', 'name': 'bvm0', 'reg': 'loader'}], [rr, call])
+        for kind in ('async', 'gen', 'deco', 'prop', 'comp', 'multi', 'exec', 'eval', 'method'):
+            yield case([pin], [{'m': 0, 'kind': kind}])
+            yield case([pin], [{'m': 0, 'kind': 'reraise', 'how': 'as_e'}, {'m': 0, 'kind': kind}])
+        # a module file on disk and its history
+        for v1 in self.V1S:
+            for prime in self.PRIMES:
+                for mt in ('differ', 'same'):
+                    for gone in (0, 1):
+                        if (v1 == 'none' and mt == 'same') or (prime == 'none' and v1 != 'none' and mt == 'same'):
+                            continue
+                        dm = {'file': 'disk0.py', 'name': 'plug', 'reg': 'disk', 'v1': v1, 'prime': prime, 'mt': mt,
+                              'gone': gone, 'ldr': 0}
+                        yield case([dm], [call, lam])
+                        if gone == 0 and mt == 'differ':
+                            yield case([dict(dm, file='d \u00e9 0/mod.py'), pin],
+                                       [call, {'m': 1, 'kind': 'call'}, {'m': 0, 'kind': 'method'}],
+                                       exc={'kind': 'top', 'm': 0, 'args': ['a: b']}, order='s')
+        for prime in self.PRIMES:
+            for v1 in ('none', 'retag', 'shift'):
+                for order in 'bs':
+                    yield case([{'file': 'disk0.py', 'name': 'plug', 'reg': 'disk', 'v1': v1, 'prime': prime,
+                                 'mt': 'differ', 'gone': 1, 'ldr': 1}], [call], order=order)
+                yield case([{'file': 'disk0.py', 'name': 'plug', 'reg': 'disk', 'v1': v1, 'prime': prime, 'mt': 'differ',
+                             'gone': 0, 'ldr': 1}], [call])
+        for prime in ('none', 'getlines', 'boltons'):
+            for v1 in ('none', 'retag'):
+                yield case([{'file': 'disk0.py', 'name': 'plug', 'reg': 'disk', 'v1': v1, 'prime': prime, 'mt': 'differ',
+                             'gone': 0, 'ldr': 0, 'junk': 1}], [call])
+        for reg in ('loader', 'cache', 'none'):
+            yield case([{'file': 'rel0.py', 'name': '', 'reg': reg}], [call], exc={'kind': 'top', 'm': 0, 'args': ['x']})
+        for reg in ('loader', 'loader_none', 'loader_err', 'none', 'cache'):
+            for f in ('/bv/c16/m0.py', 'rel0.py', '<bv-gen-0>', '<', '<>', 'a>'):
+                for order in 'bs':
+                    yield case([{'file': f, 'name': 'bvm0', 'reg': reg}], [call], order=order)
+        for ws in self.WSS:
+            yield case([dict(pin, ws=ws)], [call, lam])
+        for tl in (1, 2, 3, 1000):
+            for limit in (None, 1, 3):
+                yield case([pin], [call, lam, call], limit=limit, tblimit=tl)
+        for gf in ('/elsewhere/mod.py', 'mod.pyc', ''):
+            yield case([dict(pin, gfile=gf)], [call, lam])
+            yield case([{'file': 'rel0.py', 'name': 'bvm0', 'reg': 'loader', 'gfile': gf}], [call])
+        for skip in (1, 2, 3, 9):
+            yield case([pin], [call, {'m': 0, 'kind': 'reraise', 'how': 'as_e'}, lam], skip=skip)
+            yield case([pin], [call, call], skip=skip, limit=1, order='s')
+        for seq in ('dict', 'build'):
+            for limit in (None, 1, 2):
+                yield case([pin], [call, lam], limit=limit, seq=seq)
+                yield case([{'file': 'disk0.py', 'name': 'plug', 'reg': 'disk', 'v1': 'retag', 'prime': 'getlines',
+                             'mt': 'differ', 'gone': 0, 'ldr': 0}], [call], limit=limit, seq=seq)
+        for mod in [None, 'builtins', '__main__', 'main', 'x.y', '']:
+            yield case([pin], [call], exc={'kind': 'modattr', 'm': 0, 'args': ['x'], 'mod': mod})
+        for args in self.LIVE_ARGS:
+            yield case([pin], [], exc={'kind': 'strsub', 'm': 0, 'args': args})
 
     @staticmethod
     def program(case):
@@ -494,6 +658,48 @@ class C16(Property):
             elif kind == 'prop':
                 L += ['class P%d:' % i, '    @property', '    def val(self):', '        return %s()' % nxt,
                       'R[%d] = lambda: P%d().val' % (i, i)]
+            elif kind == 'async':
+                L += ['async def co%d():' % i, '    return %s()' % nxt, 'def fn%d():' % i, '    c = co%d()' % i,
+                      '    try:', '        c.send(None)', '    except StopIteration as s:', '        return s.value',
+                      'R[%d] = fn%d' % (i, i)]
+            elif kind == 'reraise':
+                # the function catches the exception and hands the SAME object on (no cause, no context)
+                how = ln.get('how', 'as_e')
+                n = ln.get('n', 1)
+                head = ['def fn%d():' % i, '    try:', '        return %s()' % nxt]
+                if how == 'as_e':
+                    body = head + ['    except BaseException as e:', '        raise e']
+                elif how == 'bare':
+                    body = head + ['    except BaseException:', '        raise']
+                elif how == 'wtb':
+                    body = head + ['    except BaseException as e:', '        raise e.with_traceback(e.__traceback__)']
+                elif how == 'trim':
+                    body = head + ['    except BaseException as e:',
+                                   '        raise e.with_traceback(e.__traceback__.tb_next)']
+                elif how == 'faketb':
+                    body = head + ['    except BaseException as e:', '        t = e.__traceback__',
+                                   '        raise e.with_traceback(type(t)(t.tb_next, t.tb_frame, t.tb_lasti, t.tb_lineno))']
+                elif how == 'finally':
+                    body = head + ['    finally:', '        x = 1']
+                elif how == 'after':
+                    body = ['def fn%d():' % i, '    saved = None', '    try:', '        return %s()' % nxt,
+                            '    except BaseException as e:', '        saved = e', '    raise saved']
+                elif how == 'nested':
+                    body = ['def fn%d():' % i, '    try:', '        try:', '            return %s()' % nxt,
+                            '        except BaseException as e:', '            raise e',
+                            '    except BaseException as e2:', '        raise e2']
+                elif how == 'loop':
+                    body = ['def fn%d():' % i, '    err = None', '    for _ in range(%d):' % (n + 1), '        try:',
+                            '            if err is None:', '                %s()' % nxt, '            else:',
+                            '                raise err', '        except BaseException as x:', '            err = x',
+                            '    raise err']
+                elif how == 'throw':
+                    body = ['def fn%d():' % i, '    def g():', '        yield 1', '    it = g()', '    next(it)',
+                            '    saved = None', '    try:', '        return %s()' % nxt,
+                            '    except BaseException as e:', '        saved = e', '    it.throw(saved)']
+                else:
+                    raise ValueError(how)
+                L += body + ['R[%d] = fn%d' % (i, i)]
             else:
                 raise ValueError(kind)
         n = len(links)
@@ -516,7 +722,7 @@ class C16(Property):
                   '        return "/".join(str(a) for a in self.args)']
             cls = 'StrErr'
         elif k == 'modattr':
-            L += ['class ModErr(Exception):', '    pass', 'ModErr.__module__ = %r' % exc['mod']]
+            L += ['class ModErr(Exception):', '    pass', 'ModErr.__module__ = %r' % (exc['mod'],)]
             cls = 'ModErr'
         else:
             raise ValueError(k)
@@ -524,34 +730,228 @@ class C16(Property):
         return ['\n'.join(l) + '\n' for l in srcs]
 
     class _Loader:
-        def __init__(self, src):
+        def __init__(self, src, mode='loader'):
             self.src = src
+            self.mode = mode
 
         def get_source(self, name):
-            return self.src
+            if self.mode == 'loader_err':
+                raise ImportError(name)
+            return None if self.mode == 'loader_none' else self.src
 
-    def _raise_chain(self, case):
-        """build the program, run it, return sys.exc_info() of the exception it raises"""
+    @staticmethod
+    def _versions(src, v1):
+        """(earlier version of a module file or None, the version that runs and fails)"""
+        def tag(t):
+            return ''.join(l + t + '\n' for l in src.splitlines())
+        if v1 == 'retag':
+            return tag('  #1'), tag('  #2')            # same size, every line differs
+        if v1 == 'grow':
+            return src, tag('  # v2')
+        if v1 == 'shift':
+            return '# earlier\n# version\n' + src, src   # the old text of a line number is another statement
+        if v1 == 'short':
+            return ''.join(src.splitlines(True)[:2]), src   # the failing lines did not exist
+        if v1 == 'same':
+            return src, src
+        return None, src
+
+    T1, T2 = 1500000000, 1600000000
+
+    def _raise_chain(self, case, tmp, tbutils):
+        """build the program, replay the history of the modules kept on disk, run the program; returns
+        (sys.exc_info() of the exception it raises, linecache keys to drop afterwards, what boltons built from the
+        exception while it was being handled)"""
         srcs = self.program(case)
-        R = {}
-        registered = []
-        for m, src in zip(case['mods'], srcs):
-            g = {'__name__': m['name'], 'R': R}
-            if m['reg'] == 'cache':
-                linecache.cache[m['file']] = (len(src), None, src.splitlines(True), m['file'])
-                registered.append(m['file'])
-            elif m['reg'] == 'loader':
-                g['__loader__'] = self._Loader(src)
-                linecache.cache.pop(m['file'], None)
-                registered.append(m['file'])
+        mods = case['mods']
+        paths = []
+        for m in mods:
+            if m['reg'] == 'disk':
+                p = os.path.join(tmp, *m['file'].split('/'))
+                os.makedirs(os.path.dirname(p), exist_ok=True)
+                paths.append(p)
             else:
-                linecache.cache.pop(m['file'], None)
-            exec(compile(src, m['file'], 'exec'), g)
+                paths.append(m['file'])
+
+        def load(texts, R):
+            for m, src, path in zip(mods, texts, paths):
+                g = {'__name__': m['name'], 'R': R}
+                if m.get('gfile'):
+                    g['__file__'] = m['gfile']      # code compiled under another name than the module's __file__
+                reg = m['reg']
+                if reg == 'cache':
+                    lead, trail = m.get('ws') or ['', '']
+                    linecache.cache[path] = (len(src), None, [lead + l + trail + '\n' for l in src.splitlines()], path)
+                elif reg in ('loader', 'loader_none', 'loader_err'):
+                    g['__loader__'] = self._Loader(src, reg)
+                    linecache.cache.pop(path, None)
+                elif reg == 'disk':
+                    if m.get('ldr'):
+                        g['__loader__'] = self._Loader(src)
+                else:
+                    linecache.cache.pop(path, None)
+                exec(compile(src, path, 'exec'), g)
+
+        def write(path, text, t):
+            with open(path, 'w', encoding='utf-8') as f:
+                f.write(text)
+            os.utime(path, (t, t))
+
+        disk = [i for i, m in enumerate(mods) if m['reg'] == 'disk']
+        if disk:
+            vers = {i: self._versions(srcs[i], mods[i].get('v1', 'none')) for i in disk}
+            texts1 = list(srcs)
+            for i in disk:
+                v1, v2 = vers[i]
+                linecache.cache.pop(paths[i], None)
+                write(paths[i], v2 if v1 is None else v1, self.T1)
+                texts1[i] = v2 if v1 is None or mods[i].get('v1') == 'short' else v1
+            report = set()
+            for i in disk:
+                pr = mods[i].get('prime', 'none')
+                if pr == 'getlines' or (pr != 'none' and mods[i].get('v1') == 'short'):
+                    linecache.getlines(paths[i])
+                elif pr != 'none':
+                    report.add(pr)
+            if report:
+                # an earlier failure of the earlier version was reported (that is how its lines got cached)
+                R1 = {}
+                load(texts1, R1)
+                try:
+                    R1[0]()
+                except BaseException:
+                    et, ev, tb = sys.exc_info()
+                    try:
+                        with time_limit(10):
+                            if 'boltons' in report:
+                                tbutils.ExceptionInfo.from_exc_info(et, ev, tb).get_formatted()
+                            if 'std' in report:
+                                traceback.format_exception(et, ev, tb)
+                    except (Exception, CaseTimeout):
+                        pass
+                    et = ev = tb = None
+            for i in disk:
+                v1, v2 = vers[i]
+                srcs[i] = v2
+                if v1 is not None:
+                    write(paths[i], v2, self.T1 if mods[i].get('mt') == 'same' else self.T2)
+        R = {}
+        load(srcs, R)
+        info = cur = None
         try:
             R[0]()
         except BaseException:
-            return sys.exc_info(), registered
-        return None, registered
+            info = sys.exc_info()
+            try:
+                with time_limit(10):
+                    cur = (tbutils.ExceptionInfo.from_current(), tbutils.TracebackInfo.from_traceback(limit=case.get('limit')))
+            except CaseTimeout:
+                cur = 'CaseTimeout'
+            except Exception as e:
+                cur = exc_name(e)
+        for i in disk:
+            if mods[i].get('junk'):
+                # what is on disk now cannot be decoded as source (same mtime: a complete cache entry stays valid
+                # only if the size did not change either)
+                st = os.stat(paths[i])
+                with open(paths[i], 'wb') as f:
+                    f.write(b'\xff\xfe\x00junk\n' * 3)
+                os.utime(paths[i], ns=(st.st_atime_ns, st.st_mtime_ns))
+            if mods[i].get('gone'):
+                os.unlink(paths[i])
+        return info, paths, cur
+
+    # ------------------------------------------------------------------ what linecache can see (model input)
+    @staticmethod
+    def _bits(x):
+        return struct.unpack('<Q', struct.pack('<d', float(x)))[0]
+
+    def _file_lines(self, filename, st):
+        cache = self.__dict__.setdefault('_flines', {})
+        key = (filename, st.st_size, st.st_mtime_ns)
+        if key not in cache:
+            if len(cache) > 200:
+                cache.clear()
+            try:
+                with tokenize.open(filename) as fp:
+                    lines = fp.readlines()
+            except (OSError, UnicodeDecodeError, SyntaxError):
+                lines = []
+            if lines and not lines[-1].endswith('\n'):
+                lines[-1] += '\n'
+            cache[key] = lines
+        return cache[key]
+
+    def _look(self, filename, lineno, g):
+        """state of the three places linecache consults for `filename`, reduced to line `lineno`:
+        [cache entry, file on disk, loader]; None when the situation is outside the model"""
+        def at(lines):
+            return lines[lineno - 1] if 1 <= lineno <= len(lines) else ''
+
+        def src_line(data):
+            return '' if data is None else at([l + '\n' for l in data.splitlines()])
+        e = linecache.cache.get(filename)
+        if e is None:
+            c = ['a']
+        elif len(e) == 1:
+            try:
+                data = e[0]()
+            except (ImportError, OSError):
+                data = None
+            c = ['z', src_line(data)]
+        elif e[1] is None:
+            c = ['p', at(e[2])]
+        else:
+            if e[3] != filename:
+                return None
+            c = ['s', e[0], self._bits(e[1]), at(e[2])]
+        try:
+            st = os.stat(filename)
+        except (OSError, ValueError):
+            d = ['n']
+            if filename and not os.path.isabs(filename):
+                for dn in sys.path:
+                    try:
+                        if os.path.exists(os.path.join(dn, filename)):
+                            return None
+                    except (TypeError, ValueError):
+                        pass
+        else:
+            d = ['y', st.st_size, self._bits(st.st_mtime), at(self._file_lines(filename, st))]
+        loader = g.get('__loader__')
+        if loader is None and getattr(g.get('__spec__'), 'loader', None) is not None:
+            return None
+        get_source = getattr(loader, 'get_source', None)
+        if '__name__' in g and g['__name__'] and get_source:
+            if isinstance(loader, self._Loader):
+                try:
+                    data = get_source(g['__name__'])
+                except ImportError:
+                    data = None
+            else:
+                sc = self.__dict__.setdefault('_srcs', {})
+                key = (filename, g['__name__'])
+                if key not in sc:
+                    try:
+                        sc[key] = get_source(g['__name__'])
+                    except (ImportError, OSError):
+                        sc[key] = None
+                data = sc[key]
+            l = ['y', src_line(data)]
+        else:
+            l = ['n']
+        return [c, d, l]
+
+    def _snapshot(self, tb):
+        walk, fids = [], {}
+        t = tb
+        while t is not None:
+            fr = t.tb_frame
+            co = fr.f_code
+            walk.append([co.co_filename, t.tb_lineno, co.co_name, fids.setdefault(id(fr), len(fids)),
+                         self._look(co.co_filename, t.tb_lineno, fr.f_globals)])
+            t = t.tb_next
+        return walk
 
     @staticmethod
     def _strip_markers(chunks):
@@ -565,16 +965,40 @@ class C16(Property):
 
     def run_live(self, case):
         from boltons import tbutils
-        import io
         obs = {}
-        info, registered = self._raise_chain(case)
+        tmp = tempfile.mkdtemp(prefix='bv-c16-') if any(m['reg'] == 'disk' for m in case['mods']) else None
+        registered = []
+        had_limit = hasattr(sys, 'tracebacklimit')
+        old_limit = getattr(sys, 'tracebacklimit', None)
+        info = et = ev = tb = cur = None
         try:
+            if case.get('tblimit') is not None:
+                sys.tracebacklimit = case['tblimit']
+            info, registered, cur = self._raise_chain(case, tmp, tbutils)
             if info is None:
                 return {'exc': 'NoRaise'}
             et, ev, tb = info
+            for _ in range(case.get('skip') or 0):
+                # the caller hands over the traceback without its own outermost entries (tb.tb_next)
+                if tb.tb_next is not None:
+                    tb = tb.tb_next
             if ev.__cause__ is not None or ev.__context__ is not None or getattr(ev, '__notes__', None):
                 return {'skip': 'chained'}      # outside the statement
             limit = case.get('limit')
+            if case.get('order', 'b') == 'b':
+                # boltons is asked first, as in a program that only uses boltons: nothing has primed linecache
+                # for sources that are reachable only through the module's __loader__
+                for m in case['mods']:
+                    if m['reg'] not in ('cache', 'disk'):
+                        linecache.cache.pop(m['file'], None)
+            # --- what the interpreter hands over (model input), before anybody looks a line up
+            obs['walk'] = self._snapshot(tb)
+            if any(w[4] and w[4][0][0] == 's' and w[4][1][0] == 'n' and w[4][2][0] == 'y' for w in obs['walk']):
+                # a complete linecache entry whose file is gone while the module has a loader: the traceback module
+                # has no stable answer here (no source line on its first call - lazycache runs before checkcache -,
+                # the loader's line on every later call or when anybody else looked first); no reference, no verdict
+                # (the model's two lookups differ in exactly this state: C16.lookup_eq_std_false)
+                return {'skip': 'std-unstable'}
 
             def do_std():
                 # --- the interpreter's view (traceback module), the oracle's reference
@@ -591,50 +1015,81 @@ class C16(Property):
                 obs['std_plain'] = chunks[0] + ''.join(
                     traceback.format_list([(f.filename, f.lineno, f.name, f.line) for f in [g]])[0] for g in ex) + ''.join(only)
                 obs['std_tb'] = HEADER + '\n' + self._strip_markers(traceback.format_tb(tb, limit=limit))
+                obs['std_tb_plain'] = HEADER + '\n' + ''.join(
+                    traceback.format_list([(f.filename, f.lineno, f.name, f.line) for f in [g]])[0] for g in exl)
+                if limit is not None and limit >= 1:
+                    chl = traceback.format_exception(et, ev, tb, limit=limit)
+                    assert chl[0] == HEADER + '\n' and chl[len(chl) - len(only):] == only
+                    obs['std_lim'] = chl[0] + self._strip_markers(chl[1:len(chl) - len(only)]) + ''.join(only)
+                    obs['std_lim_plain'] = chl[0] + ''.join(
+                        traceback.format_list([(f.filename, f.lineno, f.name, f.line) for f in [g]])[0] for g in exl) + ''.join(only)
+                else:
+                    obs['std_lim'] = obs['std'] if limit is None else None
+                    obs['std_lim_plain'] = obs['std_plain'] if limit is None else None
                 stype = et.__qualname__
-                if et.__module__ not in ('__main__', 'builtins'):
-                    stype = et.__module__ + '.' + stype
+                smod = et.__module__
+                if smod not in ('__main__', 'builtins'):
+                    stype = (smod if isinstance(smod, str) else '<unknown>') + '.' + stype
+                assert only[-1] == stype + (': ' + str(ev) if str(ev) else '') + '\n'
                 obs['std_type'], obs['std_msg'] = stype, str(ev)
-                # --- what the interpreter hands over (model input)
-                walk = []
-                t = tb
-                while t is not None:
-                    co = t.tb_frame.f_code
-                    walk.append([co.co_filename, t.tb_lineno, co.co_name,
-                                 linecache.getline(co.co_filename, t.tb_lineno, t.tb_frame.f_globals)])
-                    t = t.tb_next
-                obs['walk'] = walk
+
+            def frames_of(tbi):
+                return [[cp.module_path, cp.lineno, cp.func_name, str(cp.line)] for cp in tbi.frames]
 
             def do_boltons():
                 try:
                     with time_limit(10):
+                        # 'seq': in which order the objects are built and asked ('fmt': each built, formatted, then
+                        # to_dict; 'dict': to_dict before anything was formatted; 'build': all objects built first,
+                        # then asked last-built first - instances must not share state)
+                        seq = case.get('seq', 'fmt')
                         ei = tbutils.ExceptionInfo.from_exc_info(et, ev, tb)
+                        if seq == 'build':
+                            tbi = tbutils.TracebackInfo.from_traceback(tb, limit=limit)
+                            tbutils.TracebackInfo.from_traceback(tb, limit=1)
+                            tbutils.ExceptionInfo.from_exc_info(KeyError, KeyError('other'), tb.tb_next or tb)
+                            obs['tbi'] = tbi.get_formatted()
+                        d = ei.to_dict() if seq == 'dict' else None
                         obs['ei'] = ei.get_formatted()
                         obs['ei_only'] = ei.get_formatted_exception_only()
-                        d = ei.to_dict()
+                        d = d or ei.to_dict()
                         obs['ei_type'], obs['ei_msg'] = d['exc_type'], d['exc_msg']
                         obs['ei_frames'] = [[f['module_path'], f['lineno'], f['func_name'], f['line']]
                                             for f in d['exc_tb']['frames']]
-                        tbi = tbutils.TracebackInfo.from_traceback(tb, limit=limit)
+                        if seq != 'build':
+                            tbi = tbutils.TracebackInfo.from_traceback(tb, limit=limit)
+                        td = tbi.to_dict() if seq == 'dict' else None
                         obs['tbi'] = tbi.get_formatted()
                         obs['tbi_str'] = str(tbi)
                         obs['tbi_frames'] = [[f['module_path'], f['lineno'], f['func_name'], f['line']]
-                                             for f in tbi.to_dict()['frames']]
+                                             for f in (td or tbi.to_dict())['frames']]
                         obs['tbi_n'] = len(tbi)
-                        buf = io.StringIO()
-                        tbutils.print_exception(et, ev, tb, file=buf)
-                        obs['print'] = buf.getvalue()
+                        for key, lim in (('print', None), ('print_lim', limit)):
+                            buf = io.StringIO()
+                            try:
+                                tbutils.print_exception(et, ev, tb, limit=lim, file=buf)
+                                obs[key] = buf.getvalue()
+                            except Exception as e:
+                                obs[key] = None
+                                obs[key + '_exc'] = exc_name(e)
+                        # the same exception through the other documented entry points
+                        if case.get('skip'):
+                            obs['cur'], obs['cur_frames'], obs['cur_tbi'] = obs['ei'], obs['ei_frames'], obs['tbi']
+                        elif isinstance(cur, tuple):
+                            obs['cur'] = cur[0].get_formatted()
+                            obs['cur_frames'] = frames_of(cur[0].tb_info)
+                            obs['cur_tbi'] = cur[1].get_formatted()
+                        else:
+                            obs['cur_exc'] = cur
+                        cei = tbutils.ContextualExceptionInfo.from_exc_info(et, ev, tb)
+                        obs['cei'] = cei.get_formatted()
+                        obs['cei_frames'] = frames_of(cei.tb_info)
                 except CaseTimeout:
                     obs['exc'] = 'CaseTimeout'
                 except Exception as e:
                     obs['exc'] = exc_name(e)
 
             if case.get('order', 'b') == 'b':
-                # boltons is asked first, as in a program that only uses boltons: nothing has primed linecache
-                # for sources that are reachable only through the module's __loader__
-                for m in case['mods']:
-                    if m['reg'] != 'cache':
-                        linecache.cache.pop(m['file'], None)
                 do_boltons()
                 do_std()
             else:
@@ -654,9 +1109,15 @@ class C16(Property):
                     obs['exc'] = exc_name(e)
             return obs
         finally:
-            info = et = ev = tb = None
+            info = et = ev = tb = cur = None
+            if had_limit:
+                sys.tracebacklimit = old_limit
+            elif hasattr(sys, 'tracebacklimit'):
+                del sys.tracebacklimit
             for f in registered:
                 linecache.cache.pop(f, None)
+            if tmp is not None:
+                shutil.rmtree(tmp, ignore_errors=True)
 
     # ------------------------------------------------------------------ implementation
     def impl(self, case):
@@ -666,13 +1127,18 @@ class C16(Property):
                 obs = self.run_live(case)
             except Exception as e:   # a broken generated program is an infrastructure problem, keep it visible
                 obs = {'exc': 'Harness' + exc_name(e)}
-            self._live = getattr(self, '_live', {})
-            if len(self._live) > 2000:
-                self._live.clear()
-            self._live[self.key(case)] = obs
+            # line() and the finding predicates need this very observation (it holds run-dependent values: the
+            # scratch directory of modules kept on disk); keep more than the runner's batch, drop the oldest
+            live = self.__dict__.setdefault('_live', {})
+            live.pop(self.key(case), None)
+            live[self.key(case)] = obs
+            while len(live) > 1600:
+                del live[next(iter(live))]
             return obs
         from boltons.tbutils import ParsedException
         text = self.std_text(case) if k == 't' else case['text']
+        if case.get('b'):
+            text = text.encode('utf-8')      # the documented other form of the argument: the text as UTF-8 bytes
         try:
             with time_limit(10):
                 pe = ParsedException.from_string(text)
@@ -697,12 +1163,20 @@ class C16(Property):
             obs = getattr(self, '_live', {}).get(key)
             if obs is None:
                 obs = self.impl(case)
-            if 'walk' not in obs:
+            if 'walk' not in obs or 'std_type' not in obs:
                 return None
             lim = case.get('limit')
-            toks = ['L', 'n' if lim is None else str(lim), hx(obs['std_type']), hx(obs['std_msg'])]
-            for fn, ln, name, line in obs['walk']:
-                toks.append(','.join([hx(fn), str(ln), hx(name), hx(line)]))
+            tl = case.get('tblimit')
+            toks = ['L', 'n' if lim is None else str(lim), 'n' if tl is None else str(tl), hx(obs['std_type']),
+                    hx(obs['std_msg'])]
+            for fn, ln, name, fid, look in obs['walk']:
+                if look is None:
+                    return None
+                c, d, l = look
+                ct = 'a' if c[0] == 'a' else '%s:%s' % (c[0], hx(c[1])) if c[0] in 'zp' else 's:%d:%d:%s' % (c[1], c[2], hx(c[3]))
+                dt = 'n' if d[0] == 'n' else 'y:%d:%d:%s' % (d[1], d[2], hx(d[3]))
+                lt = 'n' if l[0] == 'n' else 'y:' + hx(l[1])
+                toks.append(','.join([hx(fn), str(ln), hx(name), str(fid), ct, dt, lt]))
             return ' '.join(toks)
         if k == 'r':
             return 'T ' + hx(case['text'])
@@ -716,13 +1190,17 @@ class C16(Property):
         if k == 'l':
             if 'exc' in obs:
                 return 'X' + obs['exc']
-            return 'B=%s T=%s S=%s P=%s N=%d' % (hx(obs['ei']), hx(obs['tbi']), hx(obs['std']), hx(obs['print']),
-                                                obs['std_lim_n'])
+            def hp(x, key):
+                return 'X' + obs.get(key + '_exc', '?') if x is None else hx(x)
+            fr = ';'.join('%s,%d,%s,%s' % (hx(a), b, hx(c), hx(d)) for a, b, c, d in obs['ei_frames']) or '-'
+            return 'B=%s T=%s S=%s P=%s Q=%s N=%d F=%s' % (
+                hx(obs['ei']), hx(obs['tbi']), hx(obs['std']), hp(obs['print'], 'print'),
+                hp(obs['print_lim'], 'print_lim'), obs['std_lim_n'], fr)
         if 'exc' in obs:
             out = 'err ' + obs['exc']
         else:
             def h(x):
-                return '!' if x is None else hx(x)
+                return '!' if x is None else hx(x if isinstance(x, str) else str(x))
             fr = ' '.join(','.join(h(x) for x in f) for f in obs['frames']) or '-'
             s = hx(obs['str']) if 'str' in obs else 'X' + obs['str_exc']
             out = 'ok n=%d %s | %s %s | %s | %s' % (len(obs['frames']), fr, hx(obs['type']), hx(obs['msg']), s,
@@ -783,6 +1261,20 @@ class C16(Property):
         sf = [[a, b, c, d.strip()] for a, b, c, d in obs['std_frames']]
         ef = [[a, b, c, (d or '').strip()] for a, b, c, d in obs['ei_frames']]
         st['live_depth_%s' % min(len(sf) // 5 * 5, 30)] = st.get('live_depth_%s' % min(len(sf) // 5 * 5, 30), 0) + 1
+        for ln in case['links']:
+            key = 'live_link_' + ln['kind'] + ('_' + ln.get('how', 'as_e') if ln['kind'] == 'reraise' else '')
+            st[key] = st.get(key, 0) + 1
+        fids = [w[3] for w in obs['walk']]
+        if len(set(fids)) < len(fids):
+            st['live_frame_listed_more_than_once'] = st.get('live_frame_listed_more_than_once', 0) + 1
+        for m in case['mods']:
+            key = 'live_mod_' + m['reg'] + ('_%s_%s' % (m.get('v1'), m.get('prime')) if m['reg'] == 'disk' else '')
+            st[key] = st.get(key, 0) + 1
+        for w in obs['walk']:
+            lk = w[4]
+            if lk and lk[0][0] == 's' and (lk[1][0] == 'n' or lk[1][1:3] != lk[0][1:3]):
+                st['live_stale_cache_entry'] = st.get('live_stale_cache_entry', 0) + 1
+                break
         if ef != sf:
             return Failure('frames', 'ExceptionInfo frames %r, extract_tb %r' % (ef, sf))
         lf = [[a, b, c, d.strip()] for a, b, c, d in obs['std_lim_frames']]
@@ -801,7 +1293,25 @@ class C16(Property):
         if obs['tbi'] != obs['std_tb'] or obs['tbi_str'] != obs['tbi']:
             return Failure('format', 'TracebackInfo.get_formatted() = %r, format_tb = %r' % (obs['tbi'], obs['std_tb']))
         if obs['print'] != std:
-            return Failure('format', 'print_exception wrote %r, interpreter = %r' % (obs['print'], std))
+            return Failure('format', 'print_exception wrote %r (%s), interpreter = %r' % (obs['print'], obs.get('print_exc'), std))
+        if obs['std_lim'] is not None and obs['print_lim'] != obs['std_lim']:
+            return Failure('format', 'print_exception(limit=%r) wrote %r (%s), interpreter = %r'
+                           % (case.get('limit'), obs['print_lim'], obs.get('print_lim_exc'), obs['std_lim']))
+        # the same exception through from_current() / from_traceback() while it was being handled, and through
+        # the Contextual* subclasses: the same frames, the same text
+        if 'cur' not in obs:
+            return Failure('raises', 'ExceptionInfo.from_current() raised %s' % obs.get('cur_exc'))
+        cf = [[a, b, c, (d or '').strip()] for a, b, c, d in obs['cur_frames']]
+        if cf != sf or obs['cur'] + '\n' != std:
+            return Failure('format' if cf == sf else 'frames', 'ExceptionInfo.from_current(): frames %r, text %r; interpreter: %r, %r'
+                           % (cf, obs['cur'], sf, std))
+        if obs['cur_tbi'] != obs['std_tb']:
+            return Failure('format', 'TracebackInfo.from_traceback(limit=%r) of the exception being handled = %r, format_tb = %r'
+                           % (case.get('limit'), obs['cur_tbi'], obs['std_tb']))
+        xf = [[a, b, c, (d or '').strip()] for a, b, c, d in obs['cei_frames']]
+        if xf != sf or obs['cei'] + '\n' != std:
+            return Failure('format' if xf == sf else 'frames', 'ContextualExceptionInfo: frames %r, text %r; interpreter: %r, %r'
+                           % (xf, obs['cei'], sf, std))
         # the interpreter's own text through the parser (first clause on real texts)
         p = obs['parsed']
         if not self._parsed_ok(p, obs):
@@ -854,18 +1364,43 @@ class C16(Property):
         return (self.in_statement(case) and not self.has_exotic(case) and not case['msg'].endswith('\n')
                 and self.last_line_is_trailer(case))
 
+    def finding_module_not_str(self, case, failure):
+        """live kind: the exception class has a __module__ that is not a str (None): the interpreter prints
+        '<unknown>.Name', ExceptionInfo 'None.Name', and tbutils.print_exception / format_exception_only raise
+        TypeError (smod + '.')"""
+        if case['k'] != 'l' or failure.tag not in ('exc_fields', 'format'):
+            return False
+        exc = case['exc']
+        if exc.get('kind') != 'modattr' or isinstance(exc.get('mod'), str):
+            return False
+        obs = self._live_obs(case)
+        if 'ei_type' not in obs or 'std_type' not in obs:
+            return False
+        # exactly this: the prefix differs, nothing else
+        return (obs['std_type'].startswith('<unknown>.') and obs['ei_type'] == repr(exc.get('mod')) + obs['std_type'][len('<unknown>'):]
+                and obs['ei_msg'] == obs['std_msg']
+                and [f[:3] for f in obs['ei_frames']] == [f[:3] for f in obs['std_frames']]
+                and obs['ei'].replace(obs['ei_type'], obs['std_type']) + '\n' == obs['std_plain']
+                and obs.get('print') is None and obs.get('print_exc') == 'TypeError')
+
     def finding_recursion_collapse(self, case, failure):
         """live kind: the interpreter collapses more than 3 identical consecutive entries into
         '[Previous line repeated N more times]'; boltons prints (and cannot parse) no such line"""
         if getattr(failure, 'model_agrees', None) is False or case['k'] != 'l' or failure.tag not in ('format', 'parse_std'):
             return False
         obs = self._live_obs(case)
-        if 'std' not in obs or '  [Previous line repeated ' not in obs['std']:
+        if 'std' not in obs or not any('  [Previous line repeated ' in (obs.get(k) or '') for k in ('std', 'std_tb', 'std_lim')):
             return False
         if failure.tag == 'format':
-            # exactly the uncollapsed layout, nothing else differs
-            return (obs['ei'] + '\n' == obs['std_plain'] and obs['print'] == obs['std_plain']
-                    and (obs['tbi'] == obs['std_tb'] or '  [Previous line repeated ' in obs['std_tb']))
+            # exactly the uncollapsed layout everywhere, nothing else differs
+            plain = obs['std_plain']
+            tb_plain = obs.get('std_tb_plain', obs['std_tb'])
+            return (obs['ei'] + '\n' == plain and obs['print'] == plain
+                    and obs.get('cur', obs['ei']) + '\n' == plain and obs.get('cei', obs['ei']) + '\n' == plain
+                    and (obs.get('std_lim_plain') is None or obs.get('print_lim') == obs['std_lim_plain'])
+                    and obs['tbi'] == tb_plain and obs.get('cur_tbi', obs['tbi']) == tb_plain)
+        if '  [Previous line repeated ' not in obs['std']:
+            return False
         # the same entries printed one by one (no collapse line) parse and round-trip correctly
         return (self._parsed_ok(obs['parsed_plain'], obs) and obs['parsed_plain']['str'] + '\n' == obs['std_plain']
                 and not obs['std_msg'].endswith('\n') and not any(c in obs['std_msg'] for c in EXOTIC))
@@ -876,13 +1411,17 @@ class C16(Property):
         if k == 'r':
             t = case['text']
             ls = t.split('\n')
+            if case.get('b'):
+                yield {'k': 'r', 'text': t}
             for i in range(len(ls)):
-                yield {'k': 'r', 'text': '\n'.join(ls[:i] + ls[i + 1:])}
+                yield dict(case, text='\n'.join(ls[:i] + ls[i + 1:]))
             for i in range(len(t)):
-                yield {'k': 'r', 'text': t[:i] + t[i + 1:]}
+                yield dict(case, text=t[:i] + t[i + 1:])
             return
         if k == 't':
             fr = case['frames']
+            if case.get('b'):
+                yield {k_: v for k_, v in case.items() if k_ != 'b'}
             for i in range(len(fr)):
                 yield dict(case, frames=fr[:i] + fr[i + 1:])
             if case.get('nl'):
@@ -909,8 +1448,19 @@ class C16(Property):
                 yield dict(case, links=links[:i] + [dict(ln, n=ln['n'] - 1)] + links[i + 1:])
             if ln['kind'] != 'call':
                 yield dict(case, links=links[:i] + [{'m': ln['m'], 'kind': 'call'}] + links[i + 1:])
+            if ln['kind'] == 'reraise':
+                if ln.get('how') == 'loop' and ln.get('n', 1) > 0:
+                    yield dict(case, links=links[:i] + [dict(ln, n=ln['n'] - 1)] + links[i + 1:])
+                if ln.get('how', 'as_e') != 'as_e':
+                    yield dict(case, links=links[:i] + [{'m': ln['m'], 'kind': 'reraise', 'how': 'as_e'}] + links[i + 1:])
         if case.get('limit') is not None:
             yield dict(case, limit=None)
+        if case.get('tblimit') is not None:
+            yield {k: v for k, v in case.items() if k != 'tblimit'}
+        if case.get('skip'):
+            yield {k: v for k, v in case.items() if k != 'skip'}
+        if case.get('seq'):
+            yield {k: v for k, v in case.items() if k != 'seq'}
         exc = case['exc']
         if exc['kind'] != 'builtin':
             yield dict(case, exc={'kind': 'builtin', 'name': 'ValueError', 'm': exc['m'], 'args': exc['args']})
@@ -919,8 +1469,18 @@ class C16(Property):
         if len(case['mods']) > 1 and all(l['m'] == 0 for l in links) and exc['m'] == 0:
             yield dict(case, mods=case['mods'][:1])
         for i, m in enumerate(case['mods']):
-            if m['reg'] != 'cache' or m['name'] != 'bvm':
-                yield dict(case, mods=case['mods'][:i] + [dict(m, reg='cache', name='bvm')] + case['mods'][i + 1:])
+            def mod(**kw):
+                return dict(case, mods=case['mods'][:i] + [dict(m, **kw)] + case['mods'][i + 1:])
+            if m['reg'] != 'cache' or m['name'] != 'bvm' or len(m) > 3:
+                yield dict(case, mods=case['mods'][:i] + [{'file': '/bv/c16/m%d.py' % i, 'name': 'bvm', 'reg': 'cache'}]
+                           + case['mods'][i + 1:])
+            if m['reg'] == 'disk':
+                for key, simple in (('junk', None), ('ldr', 0), ('gone', 0), ('prime', 'getlines'), ('v1', 'retag'), ('mt', 'differ'),
+                                    ('file', 'disk%d.py' % i), ('name', 'bvm')):
+                    if m.get(key) != simple:
+                        yield mod(**{key: simple})
+            elif m['name'] != 'bvm':
+                yield mod(name='bvm')
 
     # ------------------------------------------------------------------ once per run
     def extra_checks(self):
